@@ -24,6 +24,9 @@ type c01Domain struct {
 	format    string
 	forbidden string // bytes a name or value cannot contain in this format
 	nameExtra string // bytes only a name cannot contain
+	nonEmpty  bool   // values cannot be empty in this format
+	hetero    bool   // the format can carry records with different field names in one stream
+	ascii     bool   // restrict to printable ASCII (column alignment counts characters: keeps UTF-8 decoding out)
 }
 
 func c01InDomain(s string, forbidden string) {
@@ -50,6 +53,16 @@ func c01WriteRead(d c01Domain) {
 	c01InDomain(k2, d.forbidden+d.nameExtra)
 	c01InDomain(v1, d.forbidden)
 	c01InDomain(v2, d.forbidden)
+	if d.ascii {
+		for _, t := range []string{k1, k2, v1, v2} {
+			for i := 0; i < len(t); i++ {
+				verifAssume(t[i] > 0x20 && t[i] < 0x7f)
+			}
+		}
+	}
+	if d.nonEmpty {
+		verifAssume(v2 != "-") // PPRINT writes an empty value as "-"
+	}
 	// LF-terminated formats auto-detect CRLF: a carriage return as the last byte of a line is not
 	// representable unless the format escapes it (TSV does)
 	if d.format != "tsv" && d.format != "csv" {
@@ -63,15 +76,32 @@ func c01WriteRead(d c01Domain) {
 	}
 
 	names := []string{k1, k2}
-	rows := [][]string{{v1, v2}, {"x", "y"}}
+	rowNames := [][]string{names, names, names}
+	rows := [][]string{{v1, v2}, {"x", "y"}, {"p", "q"}}
+	if d.hetero {
+		// the second and third records may carry one more field, or lack the last one (schema change)
+		verifAssume(k1 != "zz" && k2 != "zz")
+		switch verifChoice("second_record_shape", 3) {
+		case 1:
+			rowNames[1], rows[1] = []string{k1, k2, "zz"}, []string{"x", "y", "w"}
+		case 2:
+			rowNames[1], rows[1] = []string{k1}, []string{"x"}
+		}
+		switch verifChoice("third_record_shape", 2) {
+		case 1:
+			rowNames[2], rows[2] = []string{k1, k2, "zz"}, []string{"p", "q", "r"}
+		}
+	} else {
+		rowNames, rows = rowNames[:2], rows[:2]
+	}
 	w, err := output.Create(&o.WriterOptions)
 	verifAssert(err == nil && w != nil, "C01/wr/writer-created")
 	var buf bytes.Buffer
 	bw := bufio.NewWriter(&buf)
 	ctx := types.NewContext()
-	for _, row := range rows {
+	for j, row := range rows {
 		rec := mlrval.NewMlrmapAsRecord()
-		for i, n := range names {
+		for i, n := range rowNames[j] {
 			rec.PutReference(n, mlrval.FromString(row[i]))
 		}
 		verifAssert(w.Write(rec, ctx, bw, false) == nil, "C01/wr/write-ok")
@@ -87,7 +117,7 @@ func c01WriteRead(d c01Domain) {
 	verifAssert(len(got.recs) == len(rows), "C01/wr/same-number-of-records")
 	for j := 0; j < len(got.recs) && j < len(rows); j++ {
 		pe := got.recs[j].Record.Head
-		for i, n := range names {
+		for i, n := range rowNames[j] {
 			verifAssert(pe != nil, "C01/wr/same-number-of-fields")
 			if pe == nil {
 				break
@@ -110,13 +140,13 @@ func VerifC01_tsv_writer_reader_roundtrip() {
 // DKVP: names and values free of the separators; names non-numeric is not required
 //verif:opts engine-only maxpaths=300000 unwind=300
 func VerifC01_dkvp_writer_reader_roundtrip() {
-	c01WriteRead(c01Domain{format: "dkvp", forbidden: ",=\n"})
+	c01WriteRead(c01Domain{format: "dkvp", forbidden: ",=\n", hetero: true})
 }
 
 // CSV-lite: no quoting on output unless needed; fields free of separator, quote, CR and LF
 //verif:opts engine-only maxpaths=300000 unwind=300
 func VerifC01_csvlite_writer_reader_roundtrip() {
-	c01WriteRead(c01Domain{format: "csvlite", forbidden: ",\"\n\r"})
+	c01WriteRead(c01Domain{format: "csvlite", forbidden: ",\"\n\r", hetero: true})
 }
 
 // CSV (the full reader and writer, quoting on demand): every byte is representable; the only
@@ -130,5 +160,12 @@ func VerifC01_csv_writer_reader_roundtrip() {
 // pair separator's padding
 //verif:opts engine-only maxpaths=300000 unwind=300
 func VerifC01_xtab_writer_reader_roundtrip() {
-	c01WriteRead(c01Domain{format: "xtab", forbidden: "\n ", nameExtra: ""})
+	c01WriteRead(c01Domain{format: "xtab", forbidden: "\n ", nameExtra: "", hetero: true, ascii: true})
+}
+
+// PPRINT: names and values free of space and newline, values non-empty and not "-" (how an empty
+// value is written); heterogeneous streams become blocks with their own header lines
+//verif:opts engine-only maxpaths=300000 unwind=400
+func VerifC01_pprint_writer_reader_roundtrip() {
+	c01WriteRead(c01Domain{format: "pprint", forbidden: "\n ", nonEmpty: true, hetero: true, ascii: true})
 }
